@@ -32,6 +32,14 @@ CHECKS.update({
    text="On every non-sentence up to the bound the table-driven parser must stop at the first token that makes the prefix non-viable, without any reduction on that look-ahead, and offer exactly the Earley continuation set; compiled parsers must return that very token object (pointer identity), that expected set, and run no action or scan afterwards. Product closure with canonical LR(1) carries the result to all lengths.",
    note="Quantifier restricted as in the statement (conflict-free, error-free, productive).", ref="6 C06"),
 })
+CHECKS.update({
+ "C03": dict(cat="exploration", tech="exhaustive sentences up to a bound x action assignments x context values x every failing action occurrence, on compiled unmodified parsers against post-order evaluation",
+   text="Compiled parsers of conflict-free grammars under four action assignments are run on every sentence up to the bound; the recorded action calls (alternative, arguments, token pointer identity, context value) and the result must equal the post-order evaluation of the parse tree; for every sentence every choice of the failing action occurrence is enumerated.",
+   note="Action texts come from a fixed menu built on one recording function; arbitrary Go action text is C09's subject.", ref="6 C03"),
+ "C07": dict(cat="exploration", tech="exhaustive token sequences up to a bound on compiled unmodified parsers against a literal reference recovery machine; inertness against the twin grammar",
+   text="Every token sequence up to the bound (valid, singly and multiply erroneous) is parsed by compiled parsers of conflict-free grammars with error alternatives under recover() and a scan budget and compared with a transcription of the recovery rule: verdict, action calls including the error attribute's offending token and discarded attributes by identity, result, tokens consumed; sentences of the twin grammar must parse exactly as without error alternatives.",
+   note="ExpectedTokens inside the attribute and the shape of the finally returned error are not compared (not fixed by the statement).", ref="6 C07"),
+})
 NOT_YET = {}
 
 def main():
